@@ -1,5 +1,5 @@
 #!/bin/bash
-# Validates the seeded changes under /tmp/mut/out/Cxx/{a,b} in a scratch worktree of /repo and
+# Validates the seeded changes under $MUTSRC/Cxx/{a,b,c,d} (default /tmp/mut/out) in a scratch worktree of /repo and
 # records each confirmed one as /verif/seeded/<id>/{patch.diff,demo_test.go,meta.json}.
 # For each: (1) demo passes on the clean tree, (2) patch applies and the tree builds,
 # (3) the existing suite passes with the patch, (4) the demo fails with the patch,
@@ -8,13 +8,14 @@
 set -u
 export GOFLAGS=-mod=mod GOPROXY=off GOSUMDB=off GOTOOLCHAIN=local
 SR=$1; VW=$2; shift 2
+MUTSRC=${MUTSRC:-/tmp/mut/out}
 IDS="$@"
-[ -z "$IDS" ] && IDS=$(cd /tmp/mut/out && ls -d C??/[ab] | tr '/' '-')
+[ -z "$IDS" ] && IDS=$(cd $MUTSRC && ls -d C??/[abcd] | tr '/' '-')
 OUT=/verif/seeded
 mkdir -p $OUT
 for id in $IDS; do
   prop=${id%-*}; var=${id#*-}
-  src=/tmp/mut/out/$prop/$var
+  src=$MUTSRC/$prop/$var
   [ -f $src/patch.diff ] || { echo "$id: no patch"; continue; }
   demo=$(ls $src/*_test.go 2>/dev/null | head -1)
   [ -n "$demo" ] || { echo "$id: no demo"; continue; }
